@@ -15,6 +15,11 @@
 //!   `unalias A`, `opt+ O`, `opt- O`, `shift`, `args X…`, `cd D`, `umask M`, `trap S d|i|cN`,
 //!   `fdw N F`, `fdr N`, `fdd N M`, `fdc N`, `local N V`, `raise S`.
 //!
+//! `O` ranges over every option the `set` built-in can toggle except `exec` (17 options, `monitor`, `errexit`,
+//! `allexport`, `portable` … included; rendered in the POSIX spelling, e.g. `set +o noglob`). With `monitor` on
+//! the outermost subshell is job-controlled, with `errexit` a failing command ends the shell, with `allexport`
+//! assignments export — the Lean model follows all three.
+//!
 //! The script takes a full snapshot of the shell state with real built-ins (`typeset -p`,
 //! `typeset -fp`, `alias`, `set +o`, `umask`, `trap`, `probe "$@"`) plus `sysprobe` (cwd, umask, fd
 //! table and signal dispositions of the *current virtual process*): `B` in the parent before the
@@ -54,7 +59,27 @@ const VALS: [&str; 4] = ["1", "two", "x3", "w4"];
 const FUNS: [&str; 2] = ["F1", "F2"];
 const BODIES: [&str; 2] = ["b1", "b2"];
 const ALIASES: [&str; 2] = ["A1", "A2"];
-const OPTS: [&str; 6] = ["glob", "unset", "pipefail", "xtrace", "notify", "ignoreeof"];
+/// every option the `set` built-in can toggle, except `exec` (after `set -n` nothing runs any more, so there
+/// is nothing to observe); `cmdline`, `interactive`, `stdin` are not modifiable by `set`
+const OPTS: [&str; 17] = [
+    "allexport", "clobber", "errexit", "glob", "hashondefinition", "ignoreeof", "log", "login", "monitor",
+    "notify", "pipefail", "portable", "posixlycorrect", "unset", "verbose", "vi", "xtrace",
+];
+/// option names without a POSIX spelling: `set` refuses them while `portable` is on
+const NONPORTABLE_OPTS: [&str; 3] = ["hashondefinition", "login", "posixlycorrect"];
+
+/// `set` arguments that switch option `o` on / off, in the spelling the `portable` option accepts
+/// (`Option::portable_long_name`: `noclobber`, `noglob`, `nolog`, `nounset` are the negated POSIX names)
+fn opt_command(o: &str, on: bool) -> String {
+    let (name, inverted) = match o {
+        "clobber" => ("noclobber", true),
+        "glob" => ("noglob", true),
+        "log" => ("nolog", true),
+        "unset" => ("nounset", true),
+        x => (x, false),
+    };
+    format!("set {}o {}", if on != inverted { "-" } else { "+" }, name)
+}
 const DIRS: [&str; 3] = ["/d1", "/d2", "/d1/s"];
 const MASKS: [&str; 3] = ["022", "027", "077"];
 const SIGS: [(&str, Option<Number>); 6] = [
@@ -155,8 +180,8 @@ fn render_op(t: &[String]) -> Option<String> {
             format!("alias {}={}", t[1], t[2])
         }
         ("unalias", 2) if is_in(a(1)?, &ALIASES) => format!("unalias {}", t[1]),
-        ("opt+", 2) if is_in(a(1)?, &OPTS) => format!("set -o {}", t[1]),
-        ("opt-", 2) if is_in(a(1)?, &OPTS) => format!("set +o {}", t[1]),
+        ("opt+", 2) if is_in(a(1)?, &OPTS) => opt_command(&t[1], true),
+        ("opt-", 2) if is_in(a(1)?, &OPTS) => opt_command(&t[1], false),
         ("shift", 1) => "shift".to_string(),
         ("args", _) if n <= 4 && t[1..].iter().all(|x| is_in(x, &VALS)) => {
             format!("set -- {}", t[1..].join(" ")).trim_end().to_string()
@@ -171,7 +196,7 @@ fn render_op(t: &[String]) -> Option<String> {
             }
             _ => return None,
         },
-        ("fdw", 3) if is_in(a(1)?, &FDS) && is_in(a(2)?, &FILES) => format!("exec {}>/o/{}", t[1], t[2]),
+        ("fdw", 3) if is_in(a(1)?, &FDS) && is_in(a(2)?, &FILES) => format!("exec {}>|/o/{}", t[1], t[2]),
         ("fdr", 2) if is_in(a(1)?, &FDS) => format!("exec {}</o/in", t[1]),
         ("fdd", 3) if is_in(a(1)?, &FDS) && (is_in(a(2)?, &FDS) || is_in(a(2)?, &["1", "2"])) => {
             format!("exec {}>&{}", t[1], t[2])
@@ -459,14 +484,14 @@ fn finish_snap(tag: &str, secs: &BTreeMap<String, Vec<String>>) -> Snap {
     // options
     let mut on = vec![];
     for l in sec("o") {
+        // every option is tracked: `set -o X` / `set +o X`, `#set …` for those `set` cannot modify
         let mut tracked = false;
-        if let Some(name) = l.strip_prefix("set -o ") {
-            if is_in(name, &OPTS) {
-                tracked = true;
-                on.push(name.to_string());
-            }
-        } else if let Some(name) = l.strip_prefix("set +o ") {
-            tracked = is_in(name, &OPTS);
+        let body = l.strip_prefix('#').unwrap_or(l);
+        if let Some(name) = body.strip_prefix("set -o ") {
+            tracked = true;
+            on.push(name.to_string());
+        } else if body.strip_prefix("set +o ").is_some() {
+            tracked = true;
         }
         if !tracked {
             rest.push_str("o ");
@@ -635,6 +660,10 @@ fn run_script(script: &str, args: Vec<String>) -> Run {
             STATE.with(|s| *s.borrow_mut() = Some(Rc::clone(state)));
             env.builtins.insert("sysprobe", Builtin::new(Type::Mandatory, sysprobe_main));
             env.builtins.insert("selfsig", Builtin::new(Type::Mandatory, selfsig_main));
+            // the snapshot uses `typeset`, which the `portable` option would refuse as an extension
+            if let Some(b) = env.builtins.get_mut("typeset") {
+                b.r#type = Type::Mandatory;
+            }
             let mut st = state.borrow_mut();
             for p in ["/d1/s/keep", "/d2/keep", "/o/in", "/dev/null"] {
                 st.file_system.save(p, Rc::new(RefCell::new(Inode::new(b"x".to_vec())))).unwrap();
@@ -676,8 +705,17 @@ fn oracle(c: &Case, r: &Run, control: Option<&Run>) -> String {
     let b = snap_of(&r.items, "B");
     let a = snap_of(&r.items, "A");
     let ch = snap_of(&r.items, "C");
-    let (Some(b), Some(a)) = (b, a) else {
-        return "FAIL:parent-snapshot-missing".to_string();
+    let Some(b) = b else {
+        // a failing prologue command under errexit ends the parent before anything can be observed
+        let errexit = c.pro.iter().any(|t| t[0] == "opt+" && t[1] == "errexit");
+        return if errexit { "-".to_string() } else { "FAIL:parent-snapshot-missing".to_string() };
+    };
+    let Some(a) = a else {
+        // With errexit on, a subshell that ends with a non-zero status (or a failing `unalias`) makes the
+        // parent exit before `A`: nothing to compare then (the model still predicts the whole run).
+        let errexit = b.opts.split(',').any(|o| o == "errexit")
+            || c.during.iter().any(|t| t[0] == "opt+" && t[1] == "errexit");
+        return if errexit { "-".to_string() } else { "FAIL:parent-snapshot-missing".to_string() };
     };
     // 1. nothing leaks into the parent
     match control {
@@ -707,8 +745,11 @@ fn oracle(c: &Case, r: &Run, control: Option<&Run>) -> String {
     }
     // 3. copy on entry
     if let Some(ch) = ch {
-        let asyncs = c.kinds.iter().any(|k| k == "async");
-        let depth = c.kinds.len();
+        // with `monitor` on, the outermost subshell is job-controlled: an asynchronous list then neither
+        // ignores INT/QUIT nor redirects stdin, and a pipeline runs inside one more (foreground) subshell
+        let jc = b.opts.split(',').any(|o| o == "monitor");
+        let asyncs = c.kinds.iter().enumerate().any(|(i, k)| k == "async" && !(i == 0 && jc));
+        let depth = c.kinds.len() + usize::from(jc && c.kinds[0].starts_with("pipe"));
         for (what, x, y) in [
             ("vars", &b.vars, &ch.vars),
             ("funs", &b.funs, &ch.funs),
@@ -754,8 +795,9 @@ fn oracle(c: &Case, r: &Run, control: Option<&Run>) -> String {
         }
         // fd table: same except the plumbing the kind itself installs
         let mut exempt: Vec<u32> = vec![];
-        for k in &c.kinds {
+        for (i, k) in c.kinds.iter().enumerate() {
             match k.as_str() {
+                "async" if i == 0 && jc => {}
                 "subst" | "pipeF" => exempt.push(1),
                 "pipeM" => {
                     exempt.push(0);
@@ -866,6 +908,12 @@ struct Abs {
     open: Vec<String>,
     /// fds opened read-only
     ronly: Vec<String>,
+    /// the `portable` option is on
+    portable: bool,
+    /// the `errexit` option is on
+    errexit: bool,
+    /// defined aliases
+    aliases: Vec<String>,
     /// condition -> 'd' | 'i' | 'c'
     traps: BTreeMap<String, char>,
 }
@@ -902,9 +950,39 @@ fn gen_op(rng: &mut Rng, abs: &mut Abs, fam: usize, phase: char) -> Option<Strin
         }
         4 => format!("fn {} {}", pick(rng, &FUNS), pick(rng, &BODIES)),
         5 => format!("unfn {}", pick(rng, &FUNS)),
-        6 => format!("alias {} {}", pick(rng, &ALIASES), pick(rng, &VALS)),
-        7 => format!("unalias {}", pick(rng, &ALIASES)),
-        8 => format!("opt{} {}", if rng.chance(1, 2) { "+" } else { "-" }, pick(rng, &OPTS)),
+        6 => {
+            let a = pick(rng, &ALIASES);
+            if !abs.aliases.iter().any(|x| x == a) {
+                abs.aliases.push(a.to_string());
+            }
+            format!("alias {} {}", a, pick(rng, &VALS))
+        }
+        7 => {
+            let a = pick(rng, &ALIASES);
+            let defined = abs.aliases.iter().any(|x| x == a);
+            // `unalias` of an undefined alias fails: under errexit that ends the shell (modelled, but such a
+            // case observes little), so it is produced only rarely then
+            if abs.errexit && !defined && !rng.chance(1, 8) {
+                return None;
+            }
+            abs.aliases.retain(|x| x != a);
+            format!("unalias {a}")
+        }
+        8 => {
+            let on = rng.chance(1, 2);
+            // `monitor` changes how every kind of subshell is started (job control): draw it more often
+            let o = if rng.chance(1, 5) { "monitor" } else { pick(rng, &OPTS) };
+            if abs.portable && is_in(o, &NONPORTABLE_OPTS) {
+                return None;
+            }
+            if o == "portable" {
+                abs.portable = on;
+            }
+            if o == "errexit" {
+                abs.errexit = on;
+            }
+            format!("opt{} {}", if on { "+" } else { "-" }, o)
+        }
         9 => {
             if abs.nparams > 0 && rng.chance(1, 2) {
                 abs.nparams -= 1;
@@ -1049,6 +1127,10 @@ fn pro_fam(rng: &mut Rng) -> usize {
     rng.below(NFAM)
 }
 
+fn rng_fam(k: usize) -> usize {
+    k % NFAM
+}
+
 fn main() {
     quiet_panics();
     let o = Opts::from_args();
@@ -1101,6 +1183,38 @@ fn main() {
             for (k1, k2) in depth2.iter() {
                 let pro: Vec<usize> = (0..(1 + rng.below(4))).map(|_| pro_fam(&mut rng)).collect();
                 cases.push(gen_case(&mut rng, &pro, &[k1, k2], &[fam], &[], rep % 2 == 1, false));
+            }
+        }
+    }
+    // (1b) every option x on/off as the last thing the parent does before the subshell x every kind:
+    // the child's entry snapshot must show the same option set
+    for (i, opt) in OPTS.iter().enumerate() {
+        for on in [true, false] {
+            let kinds2 = if o.thorough() { KINDS.len() } else { 1 };
+            for (j, k) in KINDS.iter().enumerate() {
+                let mut variants: Vec<Vec<&str>> = vec![vec![k]];
+                for d in 0..kinds2 {
+                    variants.push(vec![k, KINDS[(i + j + d) % KINDS.len()]]);
+                }
+                for kinds in variants {
+                    let mut parts = vec![];
+                    // the opposite first, so that the op under test really changes the state
+                    if rng.chance(1, 2) && !(*opt == "portable") {
+                        parts.push(format!("P:opt{} {}", if on { "-" } else { "+" }, opt));
+                    }
+                    if rng.chance(1, 2) {
+                        parts.push(format!("P:trap {} c1", SIGS[1 + rng.below(5)].0));
+                    }
+                    parts.push(format!("P:opt{} {}", if on { "+" } else { "-" }, opt));
+                    for k in &kinds {
+                        parts.push(format!("K:{k}"));
+                    }
+                    let mut abs = Abs { portable: *opt == "portable" && on, ..Default::default() };
+                    if let Some(op) = gen_op(&mut rng, &mut abs, rng_fam(i + j), 'C') {
+                        parts.push(format!("C:{op}"));
+                    }
+                    cases.push(parts.join("; "));
+                }
             }
         }
     }
